@@ -373,8 +373,12 @@ func TestVerifC04Stream(t *testing.T) {
 				classes = append(classes, "reuse after Reset")
 			}
 		}
+		seenCl := map[string]bool{}
 		for _, cl := range classes {
-			c.Class(cl)
+			if !seenCl[cl] {
+				seenCl[cl] = true
+				c.Class(cl)
+			}
 		}
 		c.Class(v.name)
 		c.NonTrivial(nontriv, desc)
